@@ -161,7 +161,7 @@ def _missing_required_permissioned(sh, perms):
 
 
 OM_TYPES = ['Om', 'OmChild', 'OmGrand', 'OmU', 'OmNest', 'OmBeta', 'OmBase', 'OmMid', 'OmLeaf']
-RED_TYPES = ['Red', 'RedAlias', 'RedColl', 'RedChild', 'RedU', 'RedNest', 'RedNullable']
+RED_TYPES = ['Red', 'RedAlias', 'RedAlias2', 'RedColl', 'RedChild', 'RedU', 'RedNest', 'RedNullable']
 _T_ENC = ['stone.backends.python_rsrc.stone_serializers:json_compat_obj_encode']
 _OUT = ['regexes other than the two in the annotated catalogue', 'md5 itself (G6: fixed digest under the engine)',
         'types outside the annotated catalogue', 'json_encode/json_decode string entry points']
